@@ -74,7 +74,7 @@ Pub(c, d) ==
     IN [m |-> m, ct |-> Cipher(KeyOf(sh, d.t), d.nn, CtrOf(c), ToyPayload(d.p)), p |-> ToyPayload(d.p)]
 
 FlipAt(s, i) == IF i \in 1 .. Len(s) THEN [s EXCEPT ![i] = @ ^^ 1] ELSE s
-TwoArg == {"swapnonce", "foreignmanifest", "foreignct"}
+TwoArg == {"foreignmanifest", "foreignct"}
 \* x: the publication tampered with, y: a second publication of the same chunk id (used by TwoArg kinds)
 Tamper(kind, x, y) ==
     CASE kind = "none"            -> [m |-> x.m, ct |-> x.ct]
@@ -83,7 +83,7 @@ Tamper(kind, x, y) ==
       [] kind = "fliplast"        -> [m |-> x.m, ct |-> FlipAt(x.ct, Len(x.ct))]
       [] kind = "trunc"           -> [m |-> x.m, ct |-> SubSeq(x.ct, 1, Len(x.ct) - 1)]
       [] kind = "extend"          -> [m |-> x.m, ct |-> Append(x.ct, 0)]
-      [] kind = "swapnonce"       -> [m |-> [x.m EXCEPT !.nonce = y.m.nonce], ct |-> x.ct]
+      [] kind = "swapnonce"       -> [m |-> [x.m EXCEPT !.nonce = (@ + 2) % 4], ct |-> x.ct]     \* the nonce of another publication
       [] kind = "althash"         -> [m |-> [x.m EXCEPT !.hash = Hash(Append(x.p, 0))], ct |-> x.ct]
       [] kind = "shardfirst"      -> [m |-> [x.m EXCEPT !.shards[1] = @ ^^ 1], ct |-> x.ct]
       [] kind = "shardlast"       -> [m |-> [x.m EXCEPT !.shards[2] = @ ^^ 1], ct |-> x.ct]
@@ -107,7 +107,7 @@ Rec(ct, nn) == [k |-> "rec", ct |-> ct, nonce |-> nn]
 Man(m) == [k |-> "man", m |-> m]
 Shr(m) == [k |-> "shr", shards |-> m.shards, t |-> m.t]
 Tru(p, m) == [k |-> "tru", p |-> p, own |-> m]
-NoLast == [op |-> "init", c |-> 0, ok |-> FALSE, out |-> <<>>, genuine |-> TRUE, changed |-> FALSE, kind |-> "none", fallback |-> FALSE]
+NoLast == [op |-> "init", c |-> 0, ok |-> FALSE, out |-> <<>>, genuine |-> TRUE, changed |-> FALSE, tampered |-> FALSE, fallback |-> FALSE]
 
 MInit == /\ held = [c \in Ids |-> None] /\ cache = [c \in Ids |-> None] /\ shardrec = [c \in Ids |-> None]
          /\ prov = [c \in Ids |-> FALSE] /\ truth = [c \in Ids |-> None] /\ meddled = [c \in Ids |-> FALSE]
@@ -141,7 +141,7 @@ Import(c, kind, d, e) ==
           ELSE /\ held' = IF DevStoreBeforeVerify THEN [held EXCEPT ![c] = Rec(r.ct, r.m.nonce)] ELSE held
                /\ UNCHANGED <<cache, shardrec, prov, truth, meddled>>
        /\ last' = [NoLast EXCEPT !.op = "import", !.c = c, !.ok = acc, !.out = IF acc THEN pt ELSE <<>>, !.genuine = Genuine(r.m, r.ct),
-                                 !.changed = (<<held', cache', shardrec', prov'>> # <<held, cache, shardrec, prov>>), !.kind = kind]
+                                 !.changed = (<<held', cache', shardrec', prov'>> # <<held, cache, shardrec, prov>>), !.tampered = (kind # "none")]
        /\ hist' = Append(hist, [op |-> "import", c |-> c, kind |-> kind, d |-> d, e |-> e])
 
 \* ingest_manifest / handle_announce / request_chunk: no look at what the node holds
@@ -151,7 +151,7 @@ Ingest(c, kind, d, e) ==
     /\ shardrec' = [shardrec EXCEPT ![c] = Shr(m)]
     /\ meddled' = [meddled EXCEPT ![c] = @ \/ (truth[c] # None /\ truth[c].own # m)]
     /\ UNCHANGED <<held, prov, truth>>
-    /\ last' = [NoLast EXCEPT !.op = "ingest", !.c = c, !.ok = TRUE, !.kind = kind]
+    /\ last' = [NoLast EXCEPT !.op = "ingest", !.c = c, !.ok = TRUE]
     /\ hist' = Append(hist, [op |-> "ingest", c |-> c, kind |-> kind, d |-> d, e |-> e])
 
 ShardExpire(c) ==
@@ -205,8 +205,8 @@ C11_All == /\ C11_FetchAllowed /\ C11_FetchNothingUnknown /\ C11_TamperedNeverAc
 \* ---- vacuity guards (must be VIOLATED: the scenario is reachable) --------------------------------------------------
 Reach_MeddledFetch == ~(last.op = "fetch" /\ truth[LC] # None /\ meddled[LC] /\ held[LC] # None)
 Reach_MeddledMiss == ~(last.op = "fetch" /\ truth[LC] # None /\ meddled[LC] /\ ~last.ok)
-Reach_TamperedButGenuine == ~(last.op = "import" /\ last.kind # "none" /\ last.genuine /\ last.out # <<>>)
-Reach_TamperedRefused == ~(last.op = "import" /\ last.kind # "none" /\ ~last.ok)
+Reach_TamperedButGenuine == ~(last.op = "import" /\ last.tampered /\ last.genuine /\ last.out # <<>>)
+Reach_TamperedRefused == ~(last.op = "import" /\ last.tampered /\ ~last.ok)
 Reach_ReplacedByOtherContent == ~(last.op = "import" /\ last.ok /\ truth[LC] # None /\ held[LC] # None /\ hist # <<>> /\
                                   \E i \in 1 .. Len(hist) - 1 : hist[i].op = "store" /\ ToyPayload(hist[i].d.p) # last.out)
 Reach_FallbackHit == ~(last.op = "fetch" /\ last.ok /\ last.fallback)
